@@ -20,12 +20,15 @@ OPTIONAL_PROPS = ["Bee2V/C10/PropsModes.lean", "Bee2V/C10/PropsAead.lean", "Bee2
 
 
 def props_list():
-    ps = list(PROPS)
+    ps = ["Bee2V/C10/PropsStructs.lean", "Bee2V/C10/Props.lean"]
     src = open(os.path.join(vcommon.LEAN, "Bee2V/C10/Props.lean")).read()
     for p in OPTIONAL_PROPS:
         if "import " + p[:-5].replace("/", ".") in src:
             ps.append(p)
     return ps
+
+
+PROPS = props_list()     # the root file and every Props module it imports (tools_manifest.py reads this attribute)
 
 
 def regen(ctx):
@@ -265,28 +268,47 @@ def gen_aead(ctx, sessions):
     for b in ("dwp", "che"):
         # (1) wrap flow: I*, (E+A)*, G — AD fragmentation x data fragmentation
         adl = (0, 1, 15, 16, 17, 32, 33)
-        for na in adl:
-            for nd in lengths(16, 3 if not thorough else 4):
-                ad_cs = list(cutsets(points(na, 16), 1)) if not thorough else list(cutsets(points(na, 16), 2))
-                d_cs = choose_cutsets(ctx, nd, 16, interior=False) if na in (0, 17) else list(cutsets(points(nd, 16), 1))
+        gets = ["g", "V", (lambda: "v:" + wrong(rng, 8))]
+
+        def emit(ad, ac, msg, dc, full_variants):
+            key = rb(rng, rng.choice(KEYLENS))
+            start = [hx(key), hx(rb(rng, 16))]
+            ops = ["i:" + hx(f) for f in split(ad, ac)] + ["E:" + hx(f) for f in split(msg, dc)]
+            if full_variants:
+                vs = variants(ctx, ops, gets, rng, final="g", every=thorough and len(ops) <= 3)
+            elif len(ops) <= 5:
+                vs = [ops + ["g"], with_relocs(ops + ["g"], rng, "all")]
+            else:
+                vs = [ops + ["g"]]
+            for v in vs:
+                sessions.append(Sess(b, start, v))
+        # (1a) every fragmentation of the critical data (AD in one piece, empty or ending inside a block)
+        for na in (0, 17):
+            for nd in lengths(16):
+                cs = choose_cutsets(ctx, nd, 16, interior=False)
                 if not thorough:
-                    d_cs = rng.sample(d_cs, min(len(d_cs), 8))
-                    ad_cs = rng.sample(ad_cs, min(len(ad_cs), 2))
+                    cs = rng.sample(cs, min(len(cs), 20))
+                for dc in cs:
+                    emit(rb(rng, na), (), rb(rng, nd), dc, False)
+        # (1b) every fragmentation of the open data (critical data in one piece, empty or ragged)
+        for nd in (0, 17):
+            for na in lengths(16):
+                cs = choose_cutsets(ctx, na, 16, interior=False)
+                if not thorough:
+                    cs = rng.sample(cs, min(len(cs), 20))
+                for ac in cs:
+                    if len(ac) <= 4:
+                        emit(rb(rng, na), ac, rb(rng, nd), (), False)
+        # (1c) both fragmented, Get / Verify (right, wrong) after every position, relocation between any two calls
+        for na in adl:
+            for nd in lengths(16, 3):
+                ad_cs = list(cutsets(points(na, 16), 1))
+                d_cs = list(cutsets(points(nd, 16), 1))
+                ad_cs = rng.sample(ad_cs, min(len(ad_cs), 3 if thorough else 2))
+                d_cs = rng.sample(d_cs, min(len(d_cs), 4 if thorough else 2))
                 for ac in ad_cs:
                     for dc in d_cs:
-                        if len(ac) + len(dc) > 7:
-                            continue
-                        key = rb(rng, rng.choice(KEYLENS))
-                        start = [hx(key), hx(rb(rng, 16))]
-                        ad, msg = rb(rng, na), rb(rng, nd)
-                        ops = ["i:" + hx(f) for f in split(ad, ac)] + ["E:" + hx(f) for f in split(msg, dc)]
-                        gets = ["g", "V", (lambda: "v:" + wrong(rng, 8))]
-                        if len(ops) <= 4:
-                            vs = variants(ctx, ops, gets, rng, final="g", every=thorough and len(ops) <= 3)
-                        else:
-                            vs = [ops + ["g"], with_relocs(ops + ["g"], rng, "all")]
-                        for v in vs:
-                            sessions.append(Sess(b, start, v))
+                        emit(rb(rng, na), ac, rb(rng, nd), dc, True)
         # (2) unwrap flow: I*, A*, V (right / wrong), D*; and E before I (allowed: E and I are independent)
         for _ in range(400 if thorough else 80):
             key = rb(rng, rng.choice(KEYLENS))
@@ -316,6 +338,10 @@ def gen_aead(ctx, sessions):
             ops = ["e:" + hx(rb(rng, rng.choice((0, 3, 16, 21))))]
             ops += ["i:" + hx(rb(rng, rng.choice((0, 5, 16, 27))))]
             ops += ["e:" + hx(rb(rng, rng.choice((0, 13, 16, 17))))]
+            if rng.random() < 0.5:
+                # an EMPTY critical fragment between open-data fragments (StepI's ASSERT allows it: no critical data
+                # has been processed yet): it must not flush the pending open-data block
+                ops += [rng.choice(["a:-", "E:-"])]
             ops += ["i:" + hx(rb(rng, rng.choice((0, 11, 16))))]
             ops += ["a:" + hx(rb(rng, rng.choice((1, 15, 16, 40)))), "g"]
             sessions.append(Sess(b, start, with_relocs(ops, rng, rng.randrange(len(ops) + 1))))
@@ -437,6 +463,13 @@ def suite_info(s):
     return ctr, pl, sl, qm, "-T" in s
 
 
+def rand_otp(rng, dg):
+    """a random password: mostly of the right length, sometimes one digit shorter / longer (a verification with a
+    password of another length must not change what later calls return)"""
+    n = rng.choice((dg, dg, dg, dg - 1, dg + 1))
+    return hx(bytes(rng.choice(b"0123456789") for _ in range(n)))
+
+
 def gen_botp(ctx, sessions):
     rng = ctx.rng
     thorough = ctx.tier == "thorough"
@@ -447,7 +480,7 @@ def gen_botp(ctx, sessions):
         c = rng.choice(ctrs) if rng.random() < 0.5 else rb(rng, 8)
         ops = []
         for _ in range(rng.randrange(2, 9)):
-            ops.append(rng.choice(["r", "r", "V", "N", "N", "v:" + hx(bytes(rng.choice(b"0123456789") for _ in range(dg))), "g",
+            ops.append(rng.choice(["r", "r", "V", "N", "N", "v:" + rand_otp(rng, dg), "g",
                                    "S:" + hx(rng.choice(ctrs))]))
         ops += ["r", "g"]
         for v in (ops, with_relocs(ops, rng, "all"), with_relocs(ops, rng, rng.randrange(len(ops) + 1))):
@@ -458,7 +491,7 @@ def gen_botp(ctx, sessions):
         ops = []
         for _ in range(rng.randrange(2, 8)):
             t = rng.choice((0, 1, 59, 2 ** 31, 2 ** 32, 2 ** 63, 2 ** 64 - 2, rng.randrange(2 ** 40)))
-            ops.append(rng.choice(["r:%d" % t, "V:%d" % t, "v:%d:%s" % (t, hx(bytes(rng.choice(b"0123456789") for _ in range(dg))))]))
+            ops.append(rng.choice(["r:%d" % t, "V:%d" % t, "v:%d:%s" % (t, rand_otp(rng, dg))]))
         ops += ["r:%d" % 12345]
         for v in (ops, with_relocs(ops, rng, "all"), with_relocs(ops, rng, rng.randrange(len(ops) + 1))):
             sessions.append(Sess("totp", [str(dg), hx(key)], v))
@@ -475,7 +508,7 @@ def gen_botp(ctx, sessions):
             if k == "g":
                 ops.append("g")
             elif k == "v":
-                ops.append("v:%s:%d:%s" % (hx(q), t, hx(bytes(rng.choice(b"0123456789") for _ in range(dg)))))
+                ops.append("v:%s:%d:%s" % (hx(q), t, rand_otp(rng, dg)))
             else:
                 ops.append("%s:%s:%d" % (k, hx(q), t))
         ops += ["r:%s:%d" % (hx(rb(rng, 4)), 7), "g"]
@@ -741,6 +774,26 @@ def merge_prg(s):
     return Sess(s.b, s.start, ops), groups
 
 
+def run_all(ctx, exe, lines):
+    """outputs of the harness for ALL lines: after a crash (sanitizer abort) the line is marked CRASH(...) and the
+    run continues behind it (a crash is a result for that line only)"""
+    out, pos = [], 0
+    while pos < len(lines):
+        o, err, rc = ctx.run_lines(exe, lines[pos:])
+        if rc == 0 and len(o) == len(lines) - pos:
+            out += o
+            break
+        k = min(len(o), len(lines) - pos - 1)
+        msg = err.strip().split("\n") or ["?"]
+        summ = [l for l in msg if "ERROR" in l or "SUMMARY" in l or "Assertion" in l or "runtime error" in l][:3]
+        out += o[:k] + ["CRASH(rc=%d): %s" % (rc, " | ".join(summ) or msg[-1][:200])]
+        pos += k + 1
+        if len(out) > 0 and sum(1 for x in out if x.startswith("CRASH")) > 200:
+            out += ["CRASH(skipped: too many crashes)"] * (len(lines) - pos)
+            break
+    return out
+
+
 def oracle(ctx, exe, sessions, c_out, label, limit=None):
     """the three implementation-only tests; returns list of (key, session, text)"""
     fails = []
@@ -773,17 +826,14 @@ def oracle(ctx, exe, sessions, c_out, label, limit=None):
             t, groups = merge_prg(s)
             if len(t.ops) != len(s.ops):
                 plan.append((s, "chunk", want(t.line()), (groups, pairs, t)))
-    a_out, a_err, rc = ctx.run_lines(exe, aux) if aux else ([], "", 0)
-    if aux and (rc != 0 or len(a_out) != len(aux)):
-        # locate the crashing auxiliary line: it is a property failure as well
-        k = min(len(a_out), len(aux) - 1)
-        fails.append(("aux:crash", sess_of_line(aux[k]) if not aux[k].startswith("hl ") else Sess("hl", [], aux[k].split(" ")[1:]),
-                      "harness died on the derived line: %s | %s" % (aux[k][:200], a_err[-300:])))
-        a_out = a_out[:k] + ["CRASH"] * (len(aux) - k)
+    a_out = run_all(ctx, exe, aux) if aux else []
     seen = set()
     for s, kind, ai, arg in plan:
         key = "%s:%s" % (s.b, kind)
         if callable(arg):
+            if ai is not None and a_out[ai].startswith("CRASH"):
+                fails.append((key, s, "one-shot call crashed: %s -> %s" % (aux[ai][:300], a_out[ai][:300])))
+                continue
             msg = arg(a_out[ai] if ai is not None else "")
             if msg:
                 fails.append((key, s, msg + ("   [one-shot: %s]" % aux[ai] if ai is not None else "")))
@@ -845,18 +895,18 @@ def run(ctx):
     for cfg in ("asan", "w32"):
         exe = ctx.cc("harness/c10.c", cfg)
         mism = []
+        c_out = run_all(ctx, exe, lines)
         if have_driver:
-            try:
-                mism, c_out, _ = ctx.diff_run(exe, lines, cfg)
-            except RuntimeError as e:
-                ctx.notes.append(str(e))
-                c_out = ctx.run_lines(exe, lines)[0]
-                mism = [(-1, "driver", "", str(e))]
+            l_out, l_err, lrc = ctx.run_lines(ctx.driver(), lines)
+            if lrc != 0 or len(l_out) != len(lines):
+                ctx.notes.append("Lean driver failed (rc=%d): %s" % (lrc, l_err[-300:]))
+                mism = [(-1, "driver", "", "Lean driver failed (rc=%d): %s" % (lrc, l_err[-300:]))]
+            else:
+                mism = [(i, lines[i], c_out[i], l_out[i]) for i in range(len(lines)) if c_out[i] != l_out[i]]
         else:
-            c_out = ctx.run_lines(exe, lines)[0]
             mism = [(-1, "driver", "", "drv_c10 was not built")]
-        if len(c_out) < len(lines):
-            c_out = c_out + ["CRASH(no output)"] * (len(lines) - len(c_out))
+        ctx.cov["ops_" + cfg] = len(lines)
+        ctx.cov["ops_total"] = ctx.cov.get("ops_total", 0) + len(lines)
         ctx.cov["correspondence_disagreements_" + cfg] = len(mism)
         fails = oracle(ctx, exe, sessions[:len(c_out)], c_out, cfg)
         for key, s, text in fails:
